@@ -203,6 +203,25 @@ def replay_arith(recs):
                     ok, obs = False, f"raised {type(e).__name__}: {e}"
                 if not ok:
                     out.append(dict(site=f"Point {name}", stratum=st, case=case, expected={"class": r["val"], "finite": r["finite"]}, observed=obs))
+            # the same operation on float64 representatives (no dtype conversion inside the library makes a protective copy),
+            # then the elementwise arithmetic on the SAME operand: the affine operation must have left its operands as they were
+            # (finite points are rescaled; a point at infinity acts as the vector it is written as, so it keeps its scale)
+            pf = g.Point(np.array(r["p"], dtype=float) * (2.0 if r["p"][-1] != 0 else 1.0))
+            qf = g.Point(np.array(r["q"], dtype=float) * (-3.0 if r["q"][-1] != 0 else 1.0)) if r["q"] else None
+            kp, kq = np.array(pf.array, copy=True), (np.array(qf.array, copy=True) if qf is not None else None)
+            try:
+                with np.errstate(all="ignore"):
+                    got = {"add": lambda: pf + qf, "sub": lambda: pf - qf, "mul": lambda: pf * k, "rmul": lambda: k * pf,
+                           "div": lambda: pf / k}.get(op, lambda: -pf)()
+                    after = pf + np.ones(len(r["p"]))
+                ok = same_class(np.asarray(got.array), r["val"]) and np.array_equal(np.asarray(pf.array), kp) and \
+                    (qf is None or np.array_equal(np.asarray(qf.array), kq)) and np.array_equal(np.asarray(after.array), kp + 1)
+                obs = {"result": np.asarray(got.array).tolist(), "p afterwards": np.asarray(pf.array).tolist(), "p + ones afterwards": np.asarray(after.array).tolist()}
+            except Exception as e:  # noqa: BLE001
+                ok, obs = False, f"raised {type(e).__name__}: {e}"
+            if not ok:
+                out.append(dict(site=f"Point {op}/float-representatives/operands-unchanged", stratum=st, case={"p": kp.tolist(), "q": None if kq is None else kq.tolist(), "k": r["k"]},
+                                expected={"class": r["val"], "p unchanged": kp.tolist(), "p + ones": (kp + 1).tolist()}, observed=obs))
             # non-point operand: raw array arithmetic with the index types of p (plain tensor)
             if op in ("add", "sub"):
                 arr = np.arange(1, len(r["p"]) + 1)
